@@ -39,6 +39,12 @@ def main(c):
             ok, _ = c.model_check(specs, "Shutdown.tla", cfg, workers=4, expect_violation=True)
             bad += 0 if ok else 1
         c.cov["prefix_shutdown_models_violated_as_expected"] = bad
+        # the resize hand-off between requesters and Render: repaired shape holds, as-found shape loses a request
+        ok, _ = c.model_check(specs, "ResizeFlag.tla", "ResizeFlag_fixed.cfg", workers=2)
+        if not ok:
+            c.notes.append("MODEL: ResizeFlag (repaired shape) violates NoLostResize")
+        ok, _ = c.model_check(specs, "ResizeFlag.tla", "ResizeFlag_found.cfg", workers=1, expect_violation=True)
+        c.cov["resize_flag_as_found_refuted"] = not ok
     td = c.drive(drv, "c10", replay=c.replay)
     rejects, _ = c.validate_traces(specs, "Conc_Trace.tla", "Conc_Trace.cfg", td)
     if not c.replay:
@@ -47,6 +53,7 @@ def main(c):
             ("Close did not return", selfmut.conc("returned", False)),
             ("goroutine left", selfmut.conc("leaked", ["vaxis.(*Vaxis).openTty.func1"])),
             ("poster order", selfmut.poster_order),
+            ("resize request lost", selfmut.resize_lost),
         ])
     idx = c.load_index(td)
     c.count_distinct(idx, nontrivial=lambda s: True)
